@@ -1,0 +1,17 @@
+//go:build verif
+
+package lalr
+
+// VerifPack runs the displacement packer on explicit lines of (position, value) pairs.
+// Verification hook: compiled only with the "verif" build tag.
+func VerifPack(lines [][][2]int) (indices, table, check []int) {
+	var input []line
+	for _, l := range lines {
+		var ln line
+		for _, p := range l {
+			ln.pairs = append(ln.pairs, pair{pos: p[0], val: p[1]})
+		}
+		input = append(input, ln)
+	}
+	return pack(input)
+}
